@@ -262,6 +262,8 @@ def _done(res, ses, counters, spec):
     res.setdefault("nontrivial", res["verdict"] == "violation")
     counters.update(ses.totals)
     res["counters"] = counters
+    res["interleavings"] = sorted(ses.order_digests)
+    res["policies"] = ses.policies
     res["probes"] = {"max_step_ratio_permille": int(1000 * gcseam.COUNTERS.max_ratio)}
     res["case_digest"] = R.digest({"recipe": spec["recipe"]})
     return res
